@@ -120,16 +120,67 @@ def explore_job(job):
                           deadline=deadline, procs=job.procs)
 
 
+EARLY_PER_JOB = 12
+
+
 def run_jobs(rep, jobs, known, concurrent=3, echo=True):
     """Explore up to `concurrent` jobs at a time (each on its own set of
-    worker processes, all driven from this thread); post-process in order."""
+    worker processes, all driven from this thread); post-process in order.
+    Counterexamples are replayed as soon as their path arrives; the first one
+    that reproduces on the real code (and is not a listed known finding) ends
+    the run: the verdict is a violation and the rest of the exploration cannot
+    change it."""
     specs = [dict(mod=j.mod, params=j.params, procs=j.procs, max_paths=j.max_paths,
                   timeout_s=j.timeout_s) for j in jobs]
-    for i, results, stats in engine.explore_many(specs, concurrent):
+    early_n = {}
+    rep.early_sigs = set()
+
+    def watch(i, new):
+        job = jobs[i]
+        for r in new:
+            if r.get('status') != 'ok' or not r.get('out'):
+                continue
+            for g in r['out'].get('goals', []):
+                if g.get('status') != 'sat':
+                    continue
+                case = g.get('case')
+                if case is None or 'extract_error' in (case or {}):
+                    continue
+                if early_n.get(i, 0) >= EARLY_PER_JOB:
+                    return False
+                sig = job.label + json.dumps(case, sort_keys=True) + g['name']
+                if sig in rep.early_sigs:
+                    continue
+                rep.early_sigs.add(sig)
+                early_n[i] = early_n.get(i, 0) + 1
+                hmod = importlib.import_module(job.mod)
+                case2 = dict(case, goal=g['name'])
+                try:
+                    res = hmod.replay(case2)
+                except Exception:
+                    rep.inconclusive.append(f'{job.label}: replay of counterexample crashed: {traceback.format_exc()[-800:]}')
+                    continue
+                _report_cex(rep, job, g, case2, res, known)
+                if rep.violations:
+                    return True
+        return False
+
+    done = set()
+    for i, results, stats in engine.explore_many(specs, concurrent, watch=watch):
+        done.add(i)
         j = run_job(rep, jobs[i], known, results, stats)
         if echo:
             print(f'  job {j["label"]}: paths={j["paths"]} queries={j["queries"]} '
                   f'wall={j["wall_s"]}s outcomes={j["outcomes"]}', flush=True)
+        if rep.violations:
+            break
+    if rep.violations and len(done) < len(jobs):
+        rep.extra['stopped_at_first_confirmed_violation'] = True
+        rep.extra['jobs_not_completed'] = [jobs[i].label for i in range(len(jobs)) if i not in done]
+        for i in range(len(jobs)):
+            if i not in done:
+                hmod = importlib.import_module(jobs[i].mod)
+                rep.functions.update(getattr(hmod, 'FUNCTIONS', []))
 
 
 def run_job(rep, job, known, results=None, stats=None):
@@ -198,6 +249,8 @@ def run_job(rep, job, known, results=None, stats=None):
         if sig in seen:
             continue
         seen.add(sig)
+        if job.label + sig + g['name'] in getattr(rep, 'early_sigs', ()):
+            continue            # already replayed when its path arrived
         case = dict(case, goal=g['name'])
         try:
             res = hmod.replay(case)
